@@ -106,3 +106,34 @@ pub fn c08(req: &J) -> J {
         Err(_) => json!({"panicked": true, "msg": crate::last_panic()}),
     }
 }
+
+/// C07: the header of a real sealed state against an independent recomputation from the public accessors; the
+/// successor's previous-hash / height / history entry.
+pub fn c07_header(_req: &J) -> J {
+    let r = catch_unwind(AssertUnwindSafe(|| {
+        let (parent, block, _db) = honest_chain(NetID::Custom02);
+        let child = parent.apply_block(&block).expect("honest block");
+        let mut bad: Vec<String> = vec![];
+        for s in [&parent, &child] {
+            let h = s.header();
+            if h.coins_hash.0 != s.raw_coins_smt().root_hash() { bad.push(format!("coins_hash@{}", h.height)); }
+            if h.history_hash.0 != s.raw_history_smt().root_hash() { bad.push(format!("history_hash@{}", h.height)); }
+            if h.pools_hash.0 != s.raw_pools_smt().root_hash() { bad.push(format!("pools_hash@{}", h.height)); }
+            if h.stakes_hash.0 != s.raw_stakes().pre_tip911().root_hash() { bad.push(format!("stakes_hash@{}", h.height)); }
+            if h.network != NetID::Custom02 { bad.push("network".into()); }
+        }
+        let (ph, ch) = (parent.header(), child.header());
+        if ch.previous != ph.hash() { bad.push("previous".into()); }
+        if ch.height.0 != ph.height.0 + 1 { bad.push("height".into()); }
+        if child.history(ph.height) != Some(ph) { bad.push("history entry for the parent".into()); }
+        if child.history(ch.height).is_some() { bad.push("history holds the current height".into()); }
+        let next = child.next_unsealed().seal(None);
+        if next.header().previous != ch.hash() || next.history(ch.height) != Some(ch) { bad.push("chaining of the next block".into()); }
+        if ch.fee_pool == ph.fee_pool && ch.fee_multiplier == ph.fee_multiplier { bad.push("fee fields did not move in the scenario".into()); }
+        bad
+    }));
+    match r {
+        Ok(bad) => json!({"panicked": false, "mismatches": bad}),
+        Err(_) => json!({"panicked": true, "msg": crate::last_panic()}),
+    }
+}
